@@ -415,6 +415,9 @@ def seeded_variants(prop, root):
             continue
         if meta.get('property') != prop:
             continue
+        if meta.get('static_reach') is False:
+            out.append((name, 'out-of-reach'))
+            continue
         files = []
         for line in open(pf):
             if line.startswith('+++ b/'):
@@ -478,8 +481,11 @@ def run(prop, root=REPO_ROOT, jobs=16, baseline=None, max_mutants=160):
     rp = rename_private_functions(baseline['repo'], anchored_files)
     if rp:
         jobs_list.append(('neutral', 'rename-private-functions', rp))
+    out_of_reach = []
     for (sid, ov) in seeded_variants(prop, root):
-        if ov is None:
+        if ov == 'out-of-reach':
+            out_of_reach.append(sid)
+        elif ov is None:
             jobs_list.append(('seeded-skip', sid, None))
         else:
             jobs_list.append(('seeded', sid, ov))
@@ -546,6 +552,7 @@ def run(prop, root=REPO_ROOT, jobs=16, baseline=None, max_mutants=160):
         'must_fire': must_fire, 'fired': fired,
         'kill_ratio': round(fired / float(must_fire), 3) if must_fire else None,
         'seeded': seeded_n, 'seeded_detected': seeded_fired, 'seeded_skipped': seeded_skipped,
+        'seeded_out_of_static_reach': out_of_reach,
         'survivors': survivors[:80], 'failures': failures, 'samples': samples,
         'files_rewritten': anchored_files, 'wall_s': round(time.time() - t0, 2),
     }
